@@ -77,7 +77,7 @@ func hdToSession(c int) *hdRecipient {
 // ---- C01 ----
 func TestVerifC01(t *testing.T) {
 	hdRunProperty(t, hdProp{id: "C01", quick: 90, thorough: 900, minOps: 10,
-		opts: func(i int) hdGenOpts { return hdGenOpts{api: i%4 == 0, internal: i%2 == 0, prehello: true} },
+		opts: func(i int) hdGenOpts { return hdGenOpts{api: i%4 == 0, internal: i%2 == 0, prehello: true, v2: i%3 != 2} },
 		nontrivial: func(c *hdCase, tr string) bool { return hdHas(tr, "SHello") && hdHas(tr, "SError") },
 		directed: func() []*hdCase {
 			// every request type before hello, then a failing and a succeeding hello of each kind
@@ -98,6 +98,39 @@ func TestVerifC01(t *testing.T) {
 			for i, tl := range tails {
 				out = append(out, &hdCase{Id: i, Mode: 1, Backends: []hdBackendCfg{{}, {}}, Ops: append(append([]hdOp{}, pre...), tl...)})
 			}
+			// protocol 2.0: four tenants (0 and 3 publish RSA keys, 1 ECDSA, 2 Ed25519); every signing method, every
+			// signer, the time claims around the leeway, absent claims; then one good token per tenant
+			var v2 []hdOp
+			v2 = append(v2, hdOp{K: "connect", C: 1, Addr: 1})
+			ip := hdIntp
+			for alg := 0; alg < len(hdV2Algs); alg++ {
+				for signer := 0; signer <= 4; signer++ {
+					v2 = append(v2, hdOp{K: "hello", C: 1, B: 0, U: 1, V2: &hdV2Tok{Alg: alg, Signer: signer, Iat: ip(-10), Exp: ip(300)}})
+					if signer == 1 && alg < 3 {
+						// accepted: the connection has a session now; end it and go on
+						v2 = append(v2, hdOp{K: "bye", C: 1}, hdOp{K: "connect", C: 1, Addr: 1})
+					}
+				}
+			}
+			for _, b := range []int{1, 2, 3} {
+				v2 = append(v2, hdOp{K: "hello", C: 1, B: b, U: 2, V2: &hdV2Tok{Alg: 0, Signer: 1, Iat: ip(-10), Exp: ip(300)}}) // tenant 0's key for tenant b
+			}
+			times := []hdV2Tok{
+				{Iat: ip(-400), Exp: ip(-70)}, {Iat: ip(-400), Exp: ip(-50)}, {Iat: ip(70), Exp: ip(400)}, {Iat: ip(50), Exp: ip(400)},
+				{Iat: ip(-10), Nbf: ip(70), Exp: ip(400)}, {Iat: ip(-10), Nbf: ip(50), Exp: ip(400)}, {Exp: ip(400)}, {Iat: ip(-10)},
+				{Iat: ip(-10), Exp: ip(-20)}, {}, {Iat: ip(70), Exp: ip(-70)},
+			}
+			for _, tm := range times {
+				tm.Alg, tm.Signer = 3, 2
+				t := tm
+				v2 = append(v2, hdOp{K: "hello", C: 1, B: 1, U: 3, V2: &t})
+				if t.Iat != nil && t.Exp != nil && *t.Iat <= 60 && *t.Exp > -60 && *t.Iat <= *t.Exp && (t.Nbf == nil || *t.Nbf <= 60) {
+					v2 = append(v2, hdOp{K: "bye", C: 1}, hdOp{K: "connect", C: 1, Addr: 1})
+				}
+			}
+			v2 = append(v2, hdOp{K: "hello", C: 1, B: 4, U: 1, V2: &hdV2Tok{Alg: 0, Signer: 1, Iat: ip(-10), Exp: ip(300)}}, // unconfigured URL
+				hdOp{K: "hello", C: 1, B: 2, U: 1, V2: &hdV2Tok{Alg: 6, Signer: 3, Iat: ip(-10), Exp: ip(300)}}, hdJoinOp(1, 1, 1))
+			out = append(out, &hdCase{Id: len(out), Mode: 1, Backends: []hdBackendCfg{{}, {}, {}, {}}, Ops: v2})
 			return out
 		}})
 }
@@ -185,7 +218,13 @@ func TestVerifC06(t *testing.T) {
 				hdOp{K: "msg", C: 1, To: hdToSession(4), Tag: 201},
 				hdOp{K: "bye", C: 4}, hdOp{K: "connect", C: 5}, hdOp{K: "hello", C: 5, Ht: "resume", Id: &hdIdRef{T: "priv", C: 4}},
 				hdOp{K: "drop", C: 1}, hdOp{K: "tick", O: 40}, hdOp{K: "hello", C: 5, Ht: "resume", Id: &hdIdRef{T: "priv", C: 1}})
-			return []*hdCase{{Id: 0, Mode: 1, Ops: ops}}
+			// the room is deleted (by the backend) while a member is disconnected: after the resume the client must know
+			gone := []hdOp{{K: "connect", C: 1}, {K: "connect", C: 2}, {K: "hello", C: 1, B: 0, U: 1}, {K: "hello", C: 2, B: 0, U: 2},
+				hdJoinOp(1, 1, 1), hdJoinOp(2, 1, 2), {K: "drop", C: 2},
+				{K: "api", B: 0, SignAs: 0, R: 1, Api: "delete"},
+				{K: "connect", C: 3}, {K: "hello", C: 3, Ht: "resume", Id: &hdIdRef{T: "priv", C: 2}},
+				{K: "msg", C: 3, To: &hdRecipient{T: "room"}, Tag: 7}}
+			return []*hdCase{{Id: 0, Mode: 1, Ops: ops}, {Id: 1, Mode: 1, Ops: gone}}
 		}})
 }
 
